@@ -78,7 +78,7 @@ func (g *Gen) maybeArg(r *R) *R {
 }
 
 var leafOps = []string{"new", "new", "new", "goerr", "goerr", "sentinel", "deadline", "errno", "pkgnew", "unimpl",
-	"testerr", "uleaf", "assertionfailedf"}
+	"testerr", "uleaf", "assertionfailedf", "grpcstatus", "gogostatus"}
 
 var wrapOps = []string{"wrap", "wrap", "wrap", "withmessage", "withstack", "hint", "detail", "issuelink", "telemetry",
 	"domain", "tags", "assertion", "safedetails", "http", "grpc", "pkgwithmessage", "pkgwithstack", "patherr",
@@ -103,6 +103,8 @@ func (g *Gen) LeafOp(op string) *R {
 		return g.node(op, nil, nil)
 	case "errno":
 		return g.node(op, nil, []int{errnos[g.rng.Intn(len(errnos))]})
+	case "grpcstatus", "gogostatus":
+		return g.node(op, []string{g.word()}, []int{1 + g.rng.Intn(16)})
 	case "unimpl":
 		return g.node(op, []string{g.word(), g.rng.Pick(urlsPool), g.word()}, nil)
 	case "uleaf":
